@@ -224,7 +224,55 @@ WinStim ==
   { << [ev |-> "reset", comp |-> "window", cfg |-> [kind |-> kd, fmt |-> f, n |-> nn, ctor |-> Ctor(nn)]],
        [ev |-> "take", a |-> [n |-> nn]] >> \o (IF (nn + (IF f = "f64" THEN 0 ELSE 1)) % 2 = 0 THEN WinWalk(nn) ELSE << >>)
     : kd \in {"hann", "rect"}, f \in {"f64", "f32"}, nn \in 2..25 }
+---------------------------------------------------------------------------
+(* round 5: the VALUES of the frames.  Every family above uses FrameVal: no frame is silent, no two are equal.    *)
+(* The chunk clause holds for every frame sequence, so: exact silence (every channel at equilibrium) at every     *)
+(* frame index - hence at every position of every chunk -, in one channel only, runs of silence (2 frames, b - 1, *)
+(* b, b + 1, the whole array = all-zero chunks), every second frame silent, runs of equal frames, a constant      *)
+(* array.  Frame formats incl. the unsigned ones, whose equilibrium is not 0 (u8: 128, u16: 32768).               *)
+PatIn(pt, i) == i >= pt.z /\ i < pt.z + pt.r
+PatFrame(pt, i, ch) ==
+  CASE pt.kind = "zero" /\ PatIn(pt, i) -> [c \in 1..ch |-> 0]
+    [] pt.kind = "chan" /\ PatIn(pt, i) -> [c \in 1..ch |-> IF c = 1 + (i % ch) THEN 0 ELSE FrameVal(i, ch)[c]]
+    [] pt.kind = "equal" /\ PatIn(pt, i) -> FrameVal(pt.z, ch)
+    [] pt.kind = "alt" /\ (i + pt.z) % 2 = 0 -> [c \in 1..ch |-> 0]
+    [] OTHER -> FrameVal(i, ch)
+Pat(kd, z, r) == [kind |-> kd, z |-> z, r |-> r]
+Patterns(LL, bb) ==
+  { Pat("zero", z, 1) : z \in 1..LL } \cup { Pat("chan", z, 1) : z \in 1..LL }
+  \cup { Pat("zero", z, r) : z \in {1, 2, LL - bb + 1}, r \in {2, bb - 1, bb, bb + 1, LL} }
+  \cup { Pat("equal", z, r) : z \in {1, 2}, r \in {2, bb, LL} }
+  \cup { Pat("alt", 0, 0), Pat("alt", 1, 0) }
+PatValid(pt, LL) == pt.kind = "alt" \/ (pt.z >= 1 /\ pt.r >= 1 /\ pt.z + pt.r - 1 <= LL)
+ValFmts == << << "f64", 1 >>, << "i16", 2 >>, << "f32", 2 >>, << "u8", 1 >>, << "i16", 1 >>, << "f64", 2 >>,
+              << "u16", 2 >>, << "f32", 1 >> >>
+ValTrip == { t \in (2..MaxL) \X (2..MaxB) \X (1..MaxB) :
+             /\ t[1] \in {t[2], t[2] + 1, 2 * t[2], MaxL} /\ t[3] \in {1, 2, t[2]} }
+PatSeed(pt) == pt.z + 3 * pt.r + (IF pt.kind = "zero" THEN 0 ELSE IF pt.kind = "chan" THEN 1 ELSE 2)
+ValueStim ==
+  UNION { LET LL == t[1]  bb == t[2]  hh == t[3]  x == LL + bb + hh IN
+          { LET fc == ValFmts[((x + PatSeed(pt)) % Len(ValFmts)) + 1]
+                kd == IF (x + pt.z) % 4 = 0 THEN "rect" ELSE "hann"
+                via == IF pt.r = 1 THEN 0 ELSE (x + pt.z) % 7 IN
+            << [ev |-> "reset", comp |-> "windower",
+                cfg |-> [kind |-> kd, fmt |-> fc[1], ch |-> fc[2], b |-> bb, h |-> hh, ctor |-> Ctor(x + pt.z),
+                         frames |-> [i \in 1..LL |-> PatFrame(pt, i, fc[2])]]] >>
+            \o Rep(Count(LL, bb, hh) + 1, << HintW(0), NxW(0, via) >>)
+            : pt \in { q \in Patterns(LL, bb) : PatValid(q, LL) } }
+          : t \in ValTrip }
+\* layer 2 (Window.tla Wd*): the chunk iterator advances its window cursor with every frame, whatever its value -
+\* checked for every pattern above; and a shortcut keyed on silence is refuted by the very first pattern
+ValueLockStep ==
+  \A t \in ValTrip : \A pt \in { q \in Patterns(t[1], t[2]) : PatValid(q, t[1]) } :
+     LET fr == [i \in 1..t[1] |-> PatFrame(pt, i, 1)] IN
+     \A ck \in 0..(Count(t[1], t[2], t[3]) - 1) : WdLockStep(fr, ck * t[3], t[2])
+ShortcutRefuted ==
+  LET fr == [i \in 1..3 |-> PatFrame(Pat("zero", 1, 1), i, 1)] IN
+  WdPairsR(fr, WdNew(0), 3, << >>, TRUE) # [p \in 1..3 |-> << p - 1, p - 1 >>]
+ASSUME ValueLockStep /\ ShortcutRefuted
+
 Stimuli ==
+  ValueStim \cup
   { << WReset(kd, fc, LL, bb, hh) >> \o Ops(Count(LL, bb, hh) + 2)
     : LL \in 0..MaxL, bb \in 2..MaxB, hh \in 1..MaxH, kd \in {"hann", "rect"}, fc \in Fmts }
   \cup NthStim \cup FnStim \cup ProvStim \cup CloneStim \cup SetStim \cup WinStim
